@@ -107,7 +107,7 @@ int main(int argc, char **argv) {
             })));
             return c;
         });
-        ok = run_cases(a, ev, "c15-histories", a.n(20000, 1000000), 100, gen, run);
+        ok = run_cases(a, ev, "c15-histories", a.n(100000, 2000000), 100, gen, run);
     }
     ev.write(a.out);
     return ok ? 0 : 1;
